@@ -3,7 +3,7 @@ CONSTANTS
   Depth = 1
   MaxMut = 1
   Mode = "base"
-  ModelIds = {"prims", "enums", "hier", "mixin", "rec", "param_8_32", "param_22_15"}
+  ModelIds = {"hier", "mixin", "param_8_32"}
 INVARIANT InstanceTyped
 INVARIANT RoundTrip
 INVARIANT Monotone
